@@ -13,4 +13,5 @@ import Refine.Lemmas.MatrixDiag2
 import Refine.Lemmas.MatrixRot0
 import Refine.Lemmas.MatrixFun
 import Refine.Lemmas.MatrixInv
+import Refine.Lemmas.MatrixQL
 import Refine.Props.C16
